@@ -21,8 +21,8 @@ RULE = (
     "case is non-trivial (>= 1 state change before the write)."
 )
 TOLERANCES = {"recomputed_rel": 1e-9}
-FLOORS = {"quick": {"law.roundtrip": 12, "law.load-twice": 12, "law.idempotent": 6, "nodes.compared": 3000},
-          "thorough": {"law.roundtrip": 150, "law.load-twice": 150, "law.idempotent": 60, "nodes.compared": 60000}}
+FLOORS = {"quick": {"law.roundtrip": 12, "law.load-twice": 12, "law.idempotent": 6, "law.roundtrip-later-node": 8, "nodes.compared": 3000},
+          "thorough": {"law.roundtrip": 150, "law.load-twice": 150, "law.idempotent": 60, "law.roundtrip-later-node": 80, "nodes.compared": 60000}}
 TIMEOUT = {"quick": 900, "thorough": 7200}
 
 
@@ -284,6 +284,45 @@ def roundtrip(rec, rng, r, cs, bp, w, kind):
             rec.hit("law.load-twice")
             for k, m in obs.diff(o1, o2)[:5]:
                 rec.violation("load-twice-differs/" + k, m, w)
+            if rng.random() < .7:
+                # a later time node of the SAME in-memory reactor, after changes that touch grids: conversion to full core,
+                # pitch change, block height (axial grid bounds) and a little more history
+                post = []
+                try:
+                    if str(r.core.symmetry.domain).lower().startswith("third") and type(r.core.spatialGrid).__name__ == "HexGrid" and rng.random() < .6:
+                        from armi.reactor.converters.geometryConverters import ThirdCoreHexToFullCoreChanger
+                        from vlib.env import quiet as _q
+
+                        with _q():
+                            ThirdCoreHexToFullCoreChanger(cs).convert(r)
+                        post.append("third->full")
+                    if type(r.core.spatialGrid).__name__ == "HexGrid" and rng.random() < .5:
+                        r.core.spatialGrid.changePitch(r.core.spatialGrid.pitch * rng.uniform(1.0, 1.1))
+                        post.append("changePitch")
+                    if rng.random() < .6:
+                        a_ = rng.choice(list(r.core))
+                        b_ = rng.choice(list(a_))
+                        b_.setHeight(b_.getHeight() * rng.uniform(.8, 1.3))
+                        post.append("setHeight")
+                    for b_ in r.core.getBlocks()[:5]:
+                        b_.p.power = rng.uniform(1, 100)
+                    post.append("params")
+                except Exception as e:
+                    rec.crash("post-write-op", e, dict(w, post=post))
+                r.p.timeNode = node + 2
+                obs.obs(r)
+                r.sort()
+                oL = obs.obs(r)
+                db.writeToDB(r)
+                rL = db.load(cyc, node + 2, cs=cs, bp=bp)
+                rec.hit("law.roundtrip-later-node")
+                seen = set()
+                for k, m in obs.diff(oL, obs.obs(rL), limit=200):
+                    k = classify(k, m, w)
+                    if k is not None and k not in seen:
+                        seen.add(k)
+                        rec.violation("roundtrip/" + k, m, dict(w, post=post, which="later node of the same in-memory reactor"))
+                r.p.timeNode = node
             if rng.random() < .6:
                 # save the loaded reactor under another time step and load again: same state
                 r1.p.timeNode = node + 1
